@@ -10,6 +10,8 @@
    under an allocation-failure oracle  F : nat -> bool  (F k = the k-th allocate() of the run throws
    std::bad_alloc) and I/O oracles carried by the operations' arguments (which phase of a read fails;
    whether a write / the fitter fails).  What is NOT modelled: knot/coefficient VALUES (C01..C15), cfitsio.
+   Operations: construction, reading constructor, read_fits(_mem), fit, write_key, remove_key, convolve, permuteDimensions, move
+   construction / assignment, ==, write_fits(_mem), evaluation, destruction.
 
    The model follows the code THAT EXISTS, parametrised by `cfg`: one boolean per proposed `fix:` commit
    (proposed_repo_patches/C20_*.diff).  `cfg_orig` is the unchanged tree, `cfg_fixed` has all of them;
@@ -206,12 +208,17 @@ Record cfg := {
   fx_eq : bool;       (* C20_5: operator== on two empty tables returns true instead of reading coefficients[0] *)
   fx_perm : bool;     (* C20_6: permuteDimensions on an empty table returns instead of writing t_extents[0] of a 0-length array *)
   fx_moveasg : bool;  (* C20_7: move assignment releases the target's storage and leaves the source empty (was: swap) *)
-  fx_auxsize : bool   (* C20_8: read_fits allocates exactly strlen+1 bytes for the stored (unquoted) aux value *)
+  fx_auxsize : bool;  (* C20_8: read_fits allocates exactly strlen+1 bytes for the stored (unquoted) aux value *)
+  fx_rmkey : bool     (* C20_10: remove_key obtains the replacement pointer table BEFORE it releases anything (was: release the entry
+                         and the old table, then allocate the new one; a failure of that allocation left `aux` dangling) *)
 }.
 Definition cfg_orig : cfg := {| fx_aux := false; fx_clear := false; fx_conv := false; fx_fit := false; fx_eq := false;
-                                fx_perm := false; fx_moveasg := false; fx_auxsize := false |}.
+                                fx_perm := false; fx_moveasg := false; fx_auxsize := false; fx_rmkey := false |}.
 Definition cfg_fixed : cfg := {| fx_aux := true; fx_clear := true; fx_conv := true; fx_fit := true; fx_eq := true;
-                                 fx_perm := true; fx_moveasg := true; fx_auxsize := true |}.
+                                 fx_perm := true; fx_moveasg := true; fx_auxsize := true; fx_rmkey := true |}.
+(* every fix but C20_10: the tree as it was when remove_key entered the model *)
+Definition cfg_no_rmkey : cfg := {| fx_aux := true; fx_clear := true; fx_conv := true; fx_fit := true; fx_eq := true;
+                                    fx_perm := true; fx_moveasg := true; fx_auxsize := true; fx_rmkey := false |}.
 
 (* ---------------------------------------------------------------------------------------------- *)
 (** * Programs of the member functions *)
@@ -356,6 +363,61 @@ Definition write_key_upd_prog (o : obj) (i : nat) (e : auxent) : list action :=
    AMove (FTmp 0) (FAuxV i);                            (* :151 *)
    AAuxs (naux o) (set_nth (auxs o) i e)].
 
+(* ---- remove_key (aux.h:21-60) ----
+   bool remove_key(const char* key):
+     :24-29  linear search with strcmp over aux[i][0]; not found -> return false, nothing touched (MISS)
+   HIT at index i, n = naux.  UNCHANGED tree:
+     :35     tmp_aux = new char_ptr_ptr[naux-1]       operator new[] (NOT the Alloc parameter); bad_alloc -> catch(:55): delete[] nullptr
+                                                       (no deallocation call), rethrow: nothing touched
+     :36-39  tmp_aux[k++] = aux[j] for j != i         pointer copies, no ownership change
+     :41-43  deallocate(aux[i][0],strlen+1); deallocate(aux[i][1],strlen+1); deallocate(aux[i],2)
+     :45     deallocate(aux,naux)
+     :47     naux--
+     :51     aux = allocate<char_ptr_ptr>(naux)       bad_alloc -> catch(:55): delete[] tmp_aux; rethrow.  `aux` keeps the address of the
+                                                       RELEASED table (dangling), naux is already decremented, and the only copies of the
+                                                       surviving entries' pointers went away with tmp_aux: they are unreachable (lost)
+     :53     copy_n(tmp_aux,naux,aux)                 entries above i move down one place
+     :54     delete[] tmp_aux                         return true
+   C20_10 (fx_rmkey): the replacement table is obtained first, through the allocator, and filled with the survivors; then the entry and
+   the old table are released and `aux = new_aux; naux--`.  Its allocation failure propagates before anything is touched.
+   In the model the slot FAuxE j (FAuxK j, FAuxV j) names entry j of the table the object currently has; the copy loops take effect for
+   the object when the new table is installed: `aux_drop` (a pure re-indexing, no allocator traffic). *)
+Fixpoint remove_nth {A} (i : nat) (l : list A) : list A :=
+  match l, i with
+  | [], _ => []
+  | _ :: t, O => t
+  | h :: t, S j => h :: remove_nth j t
+  end.
+Definition is_entry (i : nat) (f : field) : bool :=
+  match f with FAuxE j | FAuxK j | FAuxV j => Nat.eqb j i | _ => false end.
+Definition drop_idx (i j : nat) : nat := if Nat.ltb j i then j else pred j.       (* new index of old entry j (j <> i) *)
+Definition drop_dst (i : nat) (f : field) : field :=
+  match f with FAuxE j => FAuxE (drop_idx i j) | FAuxK j => FAuxK (drop_idx i j) | FAuxV j => FAuxV (drop_idx i j) | g => g end.
+(* entry i is gone (its three slots are dropped: the caller has released and nulled them, anything still owned there is lost first),
+   the entries above it move down one place, naux-- *)
+Definition aux_drop (o : obj) (i : nat) : obj :=
+  {| ndim := ndim o; orders := orders o; nknots := nknots o; naxes := naxes o;
+     naux := naux o - 1; auxs := remove_nth i (auxs o);
+     slots := map (fun fs => (drop_dst i (fst fs), snd fs)) (filter (fun fs => negb (is_entry i (fst fs))) (slots o)) |}.
+Definition lose_entry (m : mem) (o : obj) (i : nat) : mem :=
+  m_lose (m_lose (m_lose m (get o (FAuxE i))) (get o (FAuxK i))) (get o (FAuxV i)).
+
+Definition remove_key_release (i : nat) : list action :=
+  [AFree (FAuxK i); AFree (FAuxV i); AFree (FAuxE i);          (* deallocate(aux[i][0],..); deallocate(aux[i][1],..); deallocate(aux[i],2) *)
+   AFree FAux].                                                (* deallocate(aux,naux) *)
+Definition remove_key_forget (i : nat) : list action :=        (* the released entry's pointers are not carried over *)
+  [ASet (FAuxK i) Null; ASet (FAuxV i) Null; ASet (FAuxE i) Null].
+(* C20_10, after new_aux = allocate<char_ptr_ptr>(naux-1) succeeded (new_aux is FTmp 0) *)
+Definition remove_key_fixed_tail (i : nat) : list action :=
+  remove_key_release i ++ remove_key_forget i ++ [ASet FAux Null; AMove (FTmp 0) FAux].      (* aux = new_aux *)
+(* unchanged tree, after tmp_aux = new char_ptr_ptr[naux-1] succeeded (tmp_aux is FTmp 0): up to aux = allocate(naux) *)
+Definition remove_key_orig_mid (o : obj) (i : nat) : list action :=
+  remove_key_release i ++ [AAuxs (naux o - 1) (firstn (naux o - 1) (auxs o));   (* :47 naux--: the table is gone, its contents with it; the
+                                                                                    model keeps length (auxs) = naux *)
+                           AAlloc FAux].                                         (* :51 *)
+Definition remove_key_orig_catch (o : obj) : list action :=    (* :55-58 *)
+  [AFreeB (FTmp 0) (8 * (naux o - 1)); ASet (FTmp 0) Null].
+
 (* ---------------------------------------------------------------------------------------------- *)
 (** * Validity of a built table (what member functions rely on without checking) *)
 
@@ -388,7 +450,8 @@ Inductive op :=
 | OEq (i j : nat)
 | OWrite (j : nat) (fails : bool)                 (* write_fits / write_fits_mem; fails = cfitsio reports an error *)
 | OEval (j : nat)                                 (* searchcenters + ndsplineeval + operator() at the centre of the extents *)
-| ODestroy (j : nat).
+| ODestroy (j : nat)
+| ORemoveKey (j : nat) (k : nat).                 (* remove_key(key), k = identity of the key string; Ok whether or not the key is present *)
 
 Inductive outcome := Ok | Failed (r : reason) | UB | Skipped.
 
@@ -443,6 +506,31 @@ Definition step_write_key (F : nat -> bool) (m : mem) (o : obj) (invalid : bool)
            end
        end.
 
+Definition step_remove_key (c : cfg) (F : nat -> bool) (m : mem) (o : obj) (k : nat) : obj * mem * option reason :=
+  match find_key k (auxs o) 0 with
+  | None => (o, m, None)                                                         (* aux.h:28 return false *)
+  | Some i =>
+      match exec F [AAllocB (FTmp 0) (8 * (naux o - 1))] m o with               (* :35 tmp_aux (operator new[]) / C20_10: new_aux (allocator) *)
+      | (_, m1, Some why) => (o, m1, Some why)                                   (* nothing touched *)
+      | (o1, m1, None) =>
+          if fx_rmkey c then
+            match exec F (remove_key_fixed_tail i) m1 o1 with
+            | (o2, m2, r) => (aux_drop o2 i, lose_entry m2 o2 i, r)
+            end
+          else
+            match exec F (remove_key_orig_mid o i) m1 o1 with
+            | (o2, m2, Some why) =>                                              (* :51 threw *)
+                match exec F (remove_key_orig_catch o) m2 o2 with (o3, m3, _) => (o3, m3, Some why) end
+            | (o2, m2, None) =>
+                match exec F (remove_key_forget i) m2 o2 with
+                | (o3, m3, _) =>
+                    let o4 := aux_drop (with_auxs o3 (naux o) (auxs o)) i in    (* :53 copy back *)
+                    exec F (remove_key_orig_catch o) (lose_entry m3 o3 i) o4    (* :54 delete[] tmp_aux *)
+                end
+            end
+      end
+  end.
+
 Definition step_convolve (c : cfg) (F : nat -> bool) (m : mem) (o : obj) (dim nk : nat) : obj * mem * option reason :=
   if fx_conv c && (negb (Nat.ltb dim (ndim o)) || Nat.ltb nk 2) then (o, m, Some RInvalid)
   else on_failure (fx_conv c) F (exec F (convolve_prog c o dim nk) m o).
@@ -480,6 +568,7 @@ Definition safe (c : cfg) (o : obj) (oother : option obj) (x : op) : bool :=
   | OMoveAssign _ _ => if fx_moveasg c then destructor_safe c o else true   (* C20_7 runs the destructor on the old value *)
   | ORead _ _ => true                                                       (* refuses, or starts from NULL pointers *)
   | OWriteKey _ invalid _ => invalid || aux_ok o                            (* strcmp over aux[i][0] *)
+  | ORemoveKey _ _ => aux_deref_ok o                                        (* strcmp over aux[i][0] for i < naux, strlen of aux[i][0..1] *)
   | OConvolve _ dim nk =>
       if fx_conv c && (negb (Nat.ltb dim (ndim o)) || Nat.ltb nk 2) then true
       else built o && Nat.ltb dim (ndim o) && Nat.leb 1 nk && has_extents o
@@ -509,7 +598,7 @@ Definition destroy (c : cfg) (F : nat -> bool) (m : mem) (o : obj) : mem :=
 Definition target (x : op) : nat :=
   match x with
   | ONew j | ONewRead j _ | ORead j _ | OFit j _ | OWriteKey j _ _ | OConvolve j _ _ | OPermute j _ | OMoveCtor j _
-  | OMoveAssign j _ | OEq j _ | OWrite j _ | OEval j | ODestroy j => j
+  | OMoveAssign j _ | OEq j _ | OWrite j _ | OEval j | ODestroy j | ORemoveKey j _ => j
   end.
 
 Definition step (c : cfg) (F : nat -> bool) (w : world) (x : op) : world * outcome :=
@@ -555,6 +644,7 @@ Definition step (c : cfg) (F : nat -> bool) (w : world) (x : op) : world * outco
           | ORead _ f => match finish o (step_read c F m o f) with (o', out, m') => (set_obj w j o' m', out) end
           | OFit _ s => match finish o (step_fit c F m o s) with (o', out, m') => (set_obj w j o' m', out) end
           | OWriteKey _ inv e => match finish o (step_write_key F m o inv e) with (o', out, m') => (set_obj w j o' m', out) end
+          | ORemoveKey _ k => match finish o (step_remove_key c F m o k) with (o', out, m') => (set_obj w j o' m', out) end
           | OConvolve _ dim nk => match finish o (step_convolve c F m o dim nk) with (o', out, m') => (set_obj w j o' m', out) end
           | OPermute _ p =>
               if negb (is_perm (ndim o) p) then (w, Failed RInvalid)
